@@ -1,9 +1,13 @@
 //! hv-core: drivers and replayers for the parts of Elvis that need only `elvis-core`.
+mod arph;
 mod ipfrag;
 mod iptab;
+mod linkh;
 mod modcmp;
 mod msgh;
+mod simh;
 mod tcbh;
+mod udph;
 mod util;
 
 use serde_json::{json, Value};
@@ -23,6 +27,9 @@ fn main() {
         "frag-drive" => ipfrag::frag_drive(&args),
         "msg-drive" => msgh::drive(&args),
         "iptab-drive" => iptab::drive(&args),
+        "link-drive" => linkh::drive(&args),
+        "udp-drive" => udph::drive(&args),
+        "arp-drive" => arph::drive(&args),
         "reasm-drive" => ipfrag::reasm_drive(&args),
         other => {
             eprintln!("unknown command {other}");
